@@ -272,3 +272,10 @@ for _pf in ("src/platform/posix/posix_tcplisten.c", "src/platform/posix/posix_ip
 extra_text.append("(* C14: NNG_ECONNABORTED appears in the transports only in endpoint close/stop functions; posix accept skips ECONNABORTED/ECONNRESET *)")
 extra_text.append("Definition C14_ECONNABORTED_CLOSE_ONLY : bool := %s.  (* offenders: %s *)" % ("true" if not _tr_bad else "false", ", ".join(_tr_bad) or "none"))
 extra_text.append("Definition C14_NEGO_MAPS_ECLOSED : list (string * bool) := [" + "; ".join('("%s"%%string, %s)' % (a, "true" if b else "false") for a, b in _nego_files) + "].  (* negotiation callbacks map NNG_ECLOSED to NNG_ECONNSHUT *)")
+
+# ---- does pipe_reap defer while nni_pipe_start is still running for the pipe? (repair of the start/reap race) ----
+_reap_src = _re.sub(r"\s+", " ", _func("src/core/pipe.c", "pipe_reap"))
+_ps = _re.sub(r"\s+", " ", _func("src/core/socket.c", "nni_pipe_start"))
+_waits = bool(_re.search(r"if \(nni_atomic_get_bool\(&p->p_starting\)\) \{.*?nni_reap\(&pipe_reap_list, p\); return; \}", _reap_src)) and \
+    bool(_re.search(r"nni_atomic_set_bool\(&p->p_starting, true\);.*nni_atomic_set_bool\(&p->p_starting, false\);", _ps))
+extra_text.append("Definition C14_REAP_WAITS_START : bool := %s.  (* pipe_reap re-queues itself while nni_pipe_start is running for the pipe *)" % ("true" if _waits else "false"))
